@@ -216,8 +216,17 @@ func (g *c12MultiGen) frame(a *c12L, k, j, depth int, later *[]func()) {
 		})
 	default:
 		switch x := r.intn(10); {
-		case x < 4 && k+1 <= g.nscript: // call the next script
-			a.syscall(k + 1)
+		case x < 4 && k+1 <= g.nscript: // call the next script, through one of the entry points
+			switch m := pick(r, []int{0, 0, 1, 3, 5}); m {
+			case 5:
+				na := r.intn(3)
+				for i := 0; i < na; i++ {
+					c12MultiValue(a, r)
+				}
+				a.syscallM(k+1, 5, na, 0)
+			default:
+				a.syscallM(k+1, m, 0, 0)
+			}
 		case x < 7:
 			c12MultiValue(a, r)
 			a.op(opcode.THROW)
@@ -400,12 +409,19 @@ func c12NestScript(inner int, k, mode, nargs, off int) []byte {
 // c12DepthPrograms: the invocation stack is filled to d0 contexts by a mix of entry points (scripts loaded through modes
 // 1, 3, 2, 7, 0-odd, 0-even in turn, each adding internal CALL contexts), then ONE more context is pushed through the entry
 // point under test: FAULT iff d0 >= 1024 (mode 4 pushes two: iff d0 >= 1023) whatever built the nesting.
-func c12DepthPrograms() []c12Input {
+func c12DepthPrograms(full bool) []c12Input {
 	var out []c12Input
 	mids := []int{1, 3, 2, 7, 0, 0} // how scripts 1..6 are loaded (script numbers 1..6; 5 is odd -> WithHash, 6 even -> WithFlags)
 	type fin struct{ mode, nargs int }
 	for _, f := range []fin{{0, 0}, {1, 0}, {2, 0}, {3, 0}, {4, 0}, {5, 2}, {6, 0}, {7, 0}, {8, 0}} { // 8: mode 0 with an even script number
-		for _, d0 := range []int{1021, 1022, 1023, 1024} {
+		d0s := []int{1021, 1022, 1023, 1024}
+		if !full { // quick tier: the two nestings on either side of the boundary of this entry point
+			d0s = []int{1023, 1024}
+			if f.mode == 4 {
+				d0s = []int{1022, 1023}
+			}
+		}
+		for _, d0 := range d0s {
 			// contexts: entry script e+1, scripts 1..5 each c+1, script 6 (the one that makes the final push) c6+1
 			per := (d0 - 7) / 7
 			rest := d0 - 7 - 7*per // goes to the entry script
